@@ -12,6 +12,27 @@ HARNESS = os.path.join(VERIF, "harness")
 NCPU = os.cpu_count() or 4
 
 
+def join_wrapped(out):
+    """TLC pretty-prints a printed value that is longer than a line over several lines ('<< "BAD",' / '   13,' / ...).
+    Values that start a line with '<<' and whose tuple brackets are not balanced on that line are joined into one line and
+    normalised to the one-line spelling ('<<"BAD", 13, ...>>'), so that line-based parsers see every printed value."""
+    lines, buf = [], None
+    for line in out.split("\n"):
+        if buf is None:
+            if line.startswith("<<") and line.count("<<") > line.count(">>"):
+                buf = line
+            else:
+                lines.append(line)
+            continue
+        buf += " " + line.strip()
+        if buf.count("<<") <= buf.count(">>"):
+            lines.append(re.sub(r"\s+>>", ">>", re.sub(r"<<\s+", "<<", re.sub(r"\s+", " ", buf))))
+            buf = None
+    if buf is not None:
+        lines.append(buf)
+    return "\n".join(lines)
+
+
 class MachineryError(Exception):
     pass
 
@@ -162,7 +183,7 @@ class Ctx:
                                stderr=subprocess.STDOUT, text=True)
         except subprocess.TimeoutExpired:
             raise MachineryError("TLC timed out on %s/%s" % (module, cfg))
-        out = p.stdout
+        out = join_wrapped(p.stdout)
         res = {"out": out, "rc": p.returncode, "dir": d}
         m = re.findall(r"(\d+) states generated, (\d+) distinct states found", out)
         if m:
